@@ -4,6 +4,7 @@ import (
 	"fmt"
 	"strings"
 
+	"github.com/jamf/regatta/regattapb"
 	"github.com/jamf/regatta/regattaserver"
 	"github.com/jamf/regatta/storage/table"
 )
@@ -13,4 +14,9 @@ func extractMore(sb *strings.Builder) {
 	fmt.Fprintf(sb, "def defaultMaxGRPCSize : Nat := %d\n", regattaserver.DefaultMaxGRPCSize)
 	fmt.Fprintf(sb, "def maxTableNameLen : Nat := %d\n", table.VerifMaxTableNameLen)
 	fmt.Fprintf(sb, "def tableIDsRangeStart : Nat := %d\n", table.VerifTableIDsRangeStart)
+	fmt.Fprintf(sb, "def metaKeyPrefix : String := %q\n", table.VerifKeyPrefix)
+	fmt.Fprintf(sb, "def metaSequenceKey : String := %q\n", table.VerifSequenceKey)
+	fmt.Fprintf(sb, "def cmdTypePut : Nat := %d\n", regattapb.Command_PUT)
+	fmt.Fprintf(sb, "def cmdTypeDummy : Nat := %d\n", regattapb.Command_DUMMY)
+	fmt.Fprintf(sb, "def cmdTypePutBatch : Nat := %d\n", regattapb.Command_PUT_BATCH)
 }
